@@ -421,7 +421,19 @@ type writeCase struct {
 	WithErr bool `json:"with_error"`
 }
 
-func runWrite(c writeCase) (f *vh.Failure) {
+// runWrite judges one write-fault case. The one verdict in it that rests on the wall clock alone
+// (a call not back within 3 s) is only reported if it repeats with ten times the patience: a
+// machine busy with other work can hold a goroutine back for seconds.
+func runWrite(c writeCase) *vh.Failure {
+	f := runWriteOnce(c, 3*time.Second)
+	if f != nil && f.Class == "C14/blocks-after-write-fault" {
+		vh.Label("timing-verdict-repeated")
+		f = runWriteOnce(c, 30*time.Second)
+	}
+	return f
+}
+
+func runWriteOnce(c writeCase, patience time.Duration) (f *vh.Failure) {
 	defer func() {
 		if r := recover(); r != nil {
 			f = vh.Failf("C14/write-fault-panic", "panic: %v", r)
@@ -474,8 +486,8 @@ func runWrite(c writeCase) (f *vh.Failure) {
 			if err != nil {
 				return vh.Failf("C14/send-after-write-fault", "request of %d packets, write %d failed once (short=%v err=%v): the next SendPackage on the channel returned %v", npackets, c.FailAt, c.Short, c.WithErr, err)
 			}
-		case <-time.After(3 * time.Second):
-			return vh.Failf("C14/blocks-after-write-fault", "request of %d packets, write %d failed once (short=%v err=%v): the next SendPackage on the channel did not return within 3 s", npackets, c.FailAt, c.Short, c.WithErr)
+		case <-time.After(patience):
+			return vh.Failf("C14/blocks-after-write-fault", "request of %d packets, write %d failed once (short=%v err=%v): the next SendPackage on the channel did not return within %v", npackets, c.FailAt, c.Short, c.WithErr, patience)
 		}
 		vh.Label("write-fault:next-send")
 	}
